@@ -37,6 +37,7 @@ if "--apply" in args:
     print("applied", n)
     sys.exit(0)
 
+VSEED = os.environ.get("RECHECK_SEED", "1")
 commit = subprocess.run(["git", "-C", VERIF, "rev-parse", "--short", "HEAD"], capture_output=True, text=True).stdout.strip()
 res = {}
 if os.path.exists(out):
@@ -55,10 +56,10 @@ for d in sorted(glob.glob("/verif/seeded/*/")):
             res[seed] = {"rc": -1, "buckets": 0, "verif_seed": 1, "error": "patch does not apply", "verif_commit": commit}
             print(seed, prop, "PATCH-FAILED", flush=True)
             continue
-        env = dict(os.environ, VERIF_SEED="1", VERIF_REPO_ROOT=tmp, VERIF_NO_EVIDENCE="1")
+        env = dict(os.environ, VERIF_SEED=VSEED, VERIF_REPO_ROOT=tmp, VERIF_NO_EVIDENCE="1")
         r = subprocess.run(["./check", prop, "--tier", "quick"], cwd=VERIF, env=env, capture_output=True, text=True)
         nb = sum(1 for l in r.stdout.splitlines() if l.startswith("VIOLATION"))
-        res[seed] = {"rc": r.returncode, "buckets": nb, "verif_seed": 1, "verif_commit": commit}
+        res[seed] = {"rc": r.returncode, "buckets": nb, "verif_seed": int(VSEED), "verif_commit": commit}
         print(seed, prop, f"rc={r.returncode} buckets={nb}", flush=True)
     finally:
         shutil.rmtree(tmp, ignore_errors=True)
